@@ -41,7 +41,7 @@ def main():
     # scratch repo at /repo's HEAD
     if not os.path.isdir(repo_wt):
         sh("git -C /repo worktree add --detach %s HEAD" % repo_wt)
-    sh("git checkout -q -- . && git clean -fdq -e rust/target -e rust/Cargo.lock && git checkout -q --detach %s" % os.environ.get("EVAL_REPO_REV", "$(git -C /repo rev-parse HEAD)"), cwd=repo_wt)
+    sh("git reset -q --hard; git clean -fdq -e rust/target -e rust/Cargo.lock; git checkout -q --detach %s" % os.environ.get("EVAL_REPO_REV", "$(git -C /repo rev-parse HEAD)"), cwd=repo_wt)
     sh("cp -n /repo/rust/Cargo.lock %s/rust/Cargo.lock" % repo_wt)
     res["repo_head"] = sh("git rev-parse --short HEAD", cwd=repo_wt)[1].strip()
     rc, out = sh("git apply --whitespace=nowarn %s/patch.diff" % d, cwd=repo_wt)
@@ -49,6 +49,8 @@ def main():
         # the library moved on since the change was written (fix: commits landed meanwhile): retry as a 3-way merge
         rc, out = sh("git apply --3way --whitespace=nowarn %s/patch.diff && git reset -q" % d, cwd=repo_wt)
         res["applied_3way"] = rc == 0
+        if rc != 0:
+            sh("git reset -q --hard", cwd=repo_wt)   # a failed 3-way merge leaves conflict markers and unmerged index entries
     res["applies"] = rc == 0
     if rc != 0:
         res["apply_output"] = out[-800:]
@@ -93,7 +95,7 @@ def main():
                     res["checks"]["%s:%s" % (pid, tier)]["replay_head"] = open(p, errors="replace").read()[:1500]
                 break
     sh("ln -sfn /repo %s/repo" % verif_wt)
-    sh("git checkout -q -- . && git clean -fdq -e rust/target -e rust/Cargo.lock", cwd=repo_wt)
+    sh("git reset -q --hard; git clean -fdq -e rust/target -e rust/Cargo.lock", cwd=repo_wt)
     res["caught"] = any(v["violation"] for v in res["checks"].values())
     json.dump(res, open(os.path.join(d, "eval.json"), "w"), indent=1)
     print(json.dumps({k: v for k, v in res.items() if k != "checks"}, indent=1))
